@@ -180,7 +180,8 @@ func (p *Parser) GenerateBaseCode() (code string, err error) {
 	tokFile := p.fset.File(p.file.Pos())
 	for _, group := range p.file.Comments {
 		for _, c := range group.List {
-			if reGoBuildGen.MatchString(c.Text) {
+			// Only a comment that starts its line has the line to itself.
+			if reGoBuildGen.MatchString(c.Text) && p.fset.Position(c.Slash).Column == 1 {
 				gone = append(gone, tokFile.Line(c.Slash))
 			}
 		}
